@@ -1270,3 +1270,90 @@ def m_iter_eq(I, c, args, fr):
 def m_iter_lt(I, c, args, fr):
     r = _iter_cmp(I, args[0], _into_iter(I, args[1]))
     return {'lt': r < 0, 'le': r <= 0, 'gt': r > 0, 'ge': r >= 0}[c.name]
+
+class MapWhileIter(Iter):
+    """Iterator::map_while: yields f(x) while it is Some; the first element mapped to None is consumed (and dropped)"""
+    def __init__(self, inner, f): self.inner = inner; self.f = f; self.done = False
+    def next(self, I):
+        if self.done:
+            return STOP
+        x = iter_next(I, self.inner)
+        if x is STOP:
+            return STOP
+        r = I.call_value(self.f, [x])
+        if r.variant == 'Some':
+            return r.fields[0]
+        self.done = True
+        return STOP
+    def size(self): return None
+    def on_drop(self, I): I.drop_value(self.inner)
+
+@model('Iterator::map_while')
+def m_map_while(I, c, args, fr):
+    return MapWhileIter(args[0], args[1])
+
+class ScanIter(Iter):
+    def __init__(self, inner, st, f): self.inner = inner; self.st = ValLoc(st); self.f = f; self.done = False
+    def next(self, I):
+        if self.done:
+            return STOP
+        x = iter_next(I, self.inner)
+        if x is STOP:
+            return STOP
+        r = I.call_value(self.f, [Ref(self.st), x])
+        if r.variant == 'Some':
+            return r.fields[0]
+        self.done = True
+        return STOP
+    def size(self): return None
+
+@model('Iterator::scan')
+def m_scan(I, c, args, fr):
+    return ScanIter(args[0], args[1], args[2])
+
+class InspectIter(Iter):
+    def __init__(self, inner, f): self.inner = inner; self.f = f
+    def next(self, I):
+        x = iter_next(I, self.inner)
+        if x is not STOP:
+            I.call_value(self.f, [ref_to(x)])
+        return x
+    def size(self): return iter_size(self.inner)
+
+@model('Iterator::inspect')
+def m_inspect(I, c, args, fr):
+    return InspectIter(args[0], args[1])
+
+@model('Iterator::unzip')
+def m_unzip(I, c, args, fr):
+    a, b = [], []
+    for x in drain_lazy(I, args[0]):
+        a.append(x.items[0]); b.append(x.items[1])
+    return Tup([VecObj(a), VecObj(b)])
+
+@model('Iterator::partition')
+def m_partition(I, c, args, fr):
+    a, b = [], []
+    for x in drain_lazy(I, args[0]):
+        (a if I.ctx.decide(I.call_value(args[1], [ref_to(x)])) else b).append(x)
+    return Tup([VecObj(a), VecObj(b)])
+
+@model('Iterator::reduce')
+def m_reduce(I, c, args, fr):
+    acc = STOP
+    for x in drain_lazy(I, args[0]):
+        acc = x if acc is STOP else I.call_value(args[1], [acc, x])
+    return none() if acc is STOP else some(acc)
+
+@model('Iterator::min_by_key', 'Iterator::max_by_key')
+def m_min_by_key(I, c, args, fr):
+    best = STOP; bk = None
+    for x in drain_lazy(I, args[0]):
+        k = I.call_value(args[1], [ref_to(x)])
+        if best is STOP:
+            best, bk = x, k
+        else:
+            r = val_cmp(I, k, bk)
+            if (c.name == 'max_by_key' and r >= 0) or (c.name == 'min_by_key' and r < 0):
+                best, bk = x, k
+    return none() if best is STOP else some(best)
